@@ -188,6 +188,10 @@ def write_class(v):
             return "float-buffer-size-const-too-small"
         if kind == "decimal" and "trim_floats did not remove" in detail:
             return "decimal-trim-after-rounding"
+        # format with no_exponent_without_fraction: `.0` cannot be removed in exponent notation, yet trim shortens an
+        # all-zero fraction to its mandatory single zero
+        if kind == "decimal" and (f & (1 << 9)) and "trim_floats removed something else than a zero fraction" in detail:
+            return "decimal-trim-shortens-zero-fraction-no-exp-without-fraction"
         if kind != "decimal" and detail:
             d = re.sub(r"[0-9]+(/[0-9]+)?", "N", detail)
             for key, name in (("is not a radix-N literal", "not-a-literal"), ("fewer than min_significant_digits", "fewer-than-min"),
